@@ -20,14 +20,15 @@ def main(argv):
             replay = args.pop(0)
         elif a == '--seed':
             os.environ['VERIF_SEED'] = args.pop(0)
+    from .common import big_frame
     mod = importlib.import_module('verifx.props.%s' % prop.lower())
     if replay:
         with open(replay) as f:
             data = json.load(f)
-        bad, detail = mod.replay(data)
+        bad, detail = big_frame(mod.replay, data)
         print(('REPRODUCED: ' if bad else 'not reproduced: ') + str(detail))
         return 1 if bad else 0
-    return mod.main()
+    return big_frame(mod.main)
 
 
 if __name__ == '__main__':
